@@ -40,6 +40,7 @@ from mpservice.multiprocessing.remote_exception import (
 )
 
 MODEL = 'remoteexc'
+CRASH_PROPS = ['C15']   # an exception escaping from mpservice code while a case is driven is reported for these
 
 
 # ----------------------------------------------------------------------------------------------
@@ -952,7 +953,7 @@ def _run_case(case, T, info, res):
 # ----------------------------------------------------------------------------------------------
 
 def model_lines(cid, case, res):
-    if res.get('skipped'):
+    if res.get('skipped') or res.get('crash'):
         return []
     lines = ['fmt H=0 N=1 S=2', f'case {cid} {res["origin"]}', f'okq {cid}']
     for k, h in enumerate(res['hops']):
